@@ -363,6 +363,7 @@ class BPWorld(World):
             "data_kind": pick(r, kinds),
             "p_component": r.choice([0.0, 0.1, 0.3]),
             "p_dangling": r.choice([0.0, 0.15, 0.4]),
+            "p_scalar": r.choice([0.0, 0.0, 0.5]),
             "max_steps": r.choice([3, 5, 8]) if config == "A" else r.choice([6, 10, 16, 24]),
         }
         if config == "B":
@@ -372,7 +373,7 @@ class BPWorld(World):
                 "init_seed": r.choice([None, r.randrange(2**31)]),
                 "order_seed": r.choice([None, r.randrange(2**31)]),
                 "smudge": r.choice([0.0, 1e-13]),
-            "exponent": r.random() < 0.2,
+                "exponent": r.random() < 0.2,
                 "lc": True,
                 "pool": r.choice([0, 0, 2, 3, 5]) if fl == "HV1BP" else 0,
             }
@@ -535,6 +536,7 @@ class BPWorld(World):
             "distance": r.choice([None, None, "L1", "L2", "Linf", "L2phased", "cosine"]),
             "smudge": r.choice([0.0, 1e-13]),
             "pool": r.choice([0, 2, 3, 5]) if fl == "HV1BP" else 0,
+            "exponent": r.random() < 0.2,
         }
         if self.knobs["data_kind"] == "complex":
             o["normalize"] = None if fl != "HV1BP" else "L2"
@@ -1021,6 +1023,8 @@ class BPWorld(World):
             yield {**knobs, "p_component": 0.0}
         if knobs.get("p_dangling"):
             yield {**knobs, "p_dangling": 0.0}
+        if knobs.get("p_scalar"):
+            yield {**knobs, "p_scalar": 0.0}
         if knobs.get("data_kind") != "pos":
             yield {**knobs, "data_kind": "pos"}
         if knobs["dims"] != [2]:
